@@ -142,13 +142,19 @@ class Sink:
     def __init__(self, env: Env, keyed: bool = False, key_tok=None):
         self.env, self.inner, self.outer, self.subs = env, [], [], []
         self.keyed, self.key_tok = keyed, key_tok
+        self.on_inner_completed = None      # feedback hook: called with the 1-based ordinal of the completed inner
 
     def attach(self, obs, rec):
         env = self.env
+        ordinal = len(self.inner)
+
+        def completed():
+            rec["out"].append((env.tick(), "C", None))
+            if self.on_inner_completed is not None:
+                self.on_inner_completed(ordinal)
         self.subs.append(obs.subscribe(on_next=lambda v: rec["out"].append((env.tick(), "N", v)),
                                        on_error=lambda e: rec["out"].append((env.tick(), "E", e)),
-                                       on_completed=lambda: rec["out"].append((env.tick(), "C", None)),
-                                       scheduler=env.s))
+                                       on_completed=completed, scheduler=env.s))
 
     def on_inner(self, w):
         rec = {"open": self.env.tick(), "out": []}
@@ -494,7 +500,11 @@ def run_group(scn: Dict[str, Any], var: Dict[str, Any], horizon: int, nvals: int
     keys = make_keys(var["kprofile"], nkeys, salt)
     errs = {"src": SrcErr("src"), "dur": CloseErr("dur")}
     msgs = _notifs([(e["t"], vals[e["v"]]) for e in src], term, errs["src"])
-    xs = env.hot(msgs) if var["hot"] else env.cold(msgs)
+    # re-entrant feedback (scenario field rx): the subscriber of the rx.g-th group, inside that group's completion
+    # callback, pushes one more element into the (hot, subject-like) source
+    rx = scn.get("rx") or {"g": 0, "v": 0}
+    feedback = rx["g"] != 0
+    xs = env.hot(msgs) if (var["hot"] or feedback) else env.cold(msgs)
     calls = [0]
     dur_keys: List[Any] = []
 
@@ -529,8 +539,18 @@ def run_group(scn: Dict[str, Any], var: Dict[str, Any], horizon: int, nvals: int
             return env.cold([(d, OnCompleted())])
         return env.cold([(d, OnError(errs["dur"]))])
 
-    twice = var.get("twice", False) and not (op == "group_by_until" and (len(par["durs"]) > 1 or par["fr"] != 0))
+    twice = var.get("twice", False) and not feedback \
+        and not (op == "group_by_until" and (len(par["durs"]) > 1 or par["fr"] != 0))
     sinks = [Sink(env, keyed=True, key_tok=lambda k: tok_of(keys, k)) for _ in range(2 if twice else 1)]
+    if feedback:
+        pushed = [False]
+
+        def push(ordinal):
+            if ordinal == rx["g"] and not pushed[0]:
+                pushed[0] = True
+                for o in list(xs.observers):        # what HotObservable does for a scheduled message
+                    o.on_next(vals[rx["v"]])
+        sinks[0].on_inner_completed = push
     dsp = _dispose_tick(scn, horizon)
     if op in ("partition", "partition_indexed"):
         p = par["p"]
@@ -756,7 +776,9 @@ def sample_group_scns(rng, op: str, c: Dict[str, Any], n: int) -> List[Dict[str,
                 if c.get("DCounts") and not fault and rng.random() < 0.3:
                     par.update(durs=[DNEVER], dk="N", fr=0, dn=rng.choice(sorted(c["DCounts"])))
         dsp = rng.randint(0, c["MaxT"]) if c.get("Disposes") and rng.random() < 0.5 else inf
-        out.append({"op": op, "par": par, "src": src, "term": term, "dsp": dsp})
+        rxg = rng.choice(sorted(c.get("RxG", {0}))) if op == "group_by_until" and par.get("dn", 0) == 0 else 0
+        out.append({"op": op, "par": par, "src": src, "term": term, "dsp": dsp,
+                    "rx": {"g": rxg, "v": rng.randrange(nv) if rxg else 0}})
     return out
 
 
